@@ -13,6 +13,16 @@
 //        -> "<sel> done=<0|1> status=<0..3> early=<0|1> asked= shown= kbd= oobq= chk=<0|1> fail=<step>:<code>|-"
 //   compiles <mgr> <cfg>                        does this manager/IO configuration exist at all
 //
+//   several pairings on ONE connection object (C35 over histories):
+//   open <mgr> <cfg> <mitm> <oobopt>            new manager + connection, kept until the next open -> "ok status=0"
+//   step <cbhas> <io> <oobflag> <authreq> <tk> <user>
+//        one more pairing attempt on the open connection, same central and same output as `pair`
+//        (a Pairing Request that arrives while pairing is not idle is answered with Pairing Failed
+//        and resets pairing: "rej 8"); `early` = a status other than no_key was visible after the
+//        request was handled and before the pairing completed
+//   peerfail                                    the central sends Pairing Failed (05 08) -> "rsp=<hex> status=<n>"
+//   reset                                       link_layer.hpp on a new connection: connection_data_ = connection_data_t() -> "status=<n>"
+//
 //   mgr : 0 legacy_security_manager, 1 lesc_security_manager, 2 security_manager
 //   cfg : 0 none, 1 yes_no, 2 keyboard, 3 display, 4 display+yes_no, 5 display+keyboard
 //   mitm: require_man_in_the_middle_protection option present; oobopt: oob_authentication_callback
@@ -178,6 +188,7 @@ struct mgr_if
     virtual int  lesc_alg() const = 0;
     virtual void legacy_p1p2( uint128_t& p1, uint128_t& p2 ) const = 0;
     virtual std::pair< bool, uint128_t > find_key() const = 0;
+    virtual void reset_connection() = 0;
 };
 
 template < class M, int K > struct access;
@@ -215,6 +226,12 @@ struct holder : mgr_if
     int  lesc_alg() const override { return access< M, Mgr >::lesc_alg( m ); }
     void legacy_p1p2( uint128_t& p1, uint128_t& p2 ) const override { access< M, Mgr >::p1p2( m, p1, p2 ); }
     std::pair< bool, uint128_t > find_key() const override { return m.connection_data_.find_key( 0, 0 ); }
+    void reset_connection() override
+    {
+        // link_layer.hpp: connection_data_ = connection_data_t(); then remote_connection_created()
+        m.connection_data_ = typename M::connection_data_t();
+        m.connection_data_.remote_connection_created( central_addr );
+    }
 };
 
 struct runner
@@ -350,10 +367,10 @@ struct runner
         r.chk = r.chk && stored.first && stored.second == ltk;
     }
 
-    result_t run( const request_t& rq, bool complete, int tk )
+    result_t run( const request_t& rq, bool complete, int tk, bool fresh = true )
     {
         result_t r;
-        watch( r );
+        if ( fresh ) watch( r );
         const std::vector< std::uint8_t > request = {
             0x01, static_cast< std::uint8_t >( rq.io ), static_cast< std::uint8_t >( rq.oobflag ), static_cast< std::uint8_t >( rq.authreq ), 0x10, 0x00, 0x00 };
         input( request );
@@ -467,6 +484,7 @@ static std::string mat( unsigned cfg, unsigned iocap )
 
 int main()
 {
+    std::unique_ptr< mgr_if > session;
     return verif::line_loop( [&]( const std::vector< std::string >& w ) -> std::string {
         if ( w.empty() ) return "bad-op";
         std::vector< unsigned long long > a;
@@ -480,6 +498,45 @@ int main()
             return mat( a[ 0 ], a[ 1 ] );
         if ( w[ 0 ] == "compiles" && a.size() == 2 )
             return exists( a[ 0 ], a[ 1 ] ) ? "1" : "0";
+        if ( w[ 0 ] == "open" && a.size() == 4 )
+        {
+            if ( a[ 2 ] > 1 || a[ 3 ] > 1 || !instantiated( a[ 0 ], a[ 1 ], a[ 2 ] != 0, a[ 3 ] != 0 ) )
+                return "bad-op";
+            io.init( 0 );
+            oob.has = false;
+            oob.queries = 0;
+            session = make( a[ 0 ], a[ 1 ], a[ 2 ] != 0, a[ 3 ] != 0 );
+            return "ok status=" + std::to_string( session->status() );
+        }
+        if ( w[ 0 ] == "step" && a.size() == 6 )
+        {
+            if ( !session || a[ 0 ] > 1 || a[ 1 ] > 255 || a[ 2 ] > 255 || a[ 3 ] > 255 || a[ 4 ] > 3 || a[ 5 ] > 6 )
+                return "bad-op";
+            io.init( static_cast< int >( a[ 5 ] ) );
+            oob.has = a[ 0 ] != 0;
+            oob.queries = 0;
+            const request_t rq = { static_cast< unsigned >( a[ 1 ] ), static_cast< unsigned >( a[ 2 ] ), static_cast< unsigned >( a[ 3 ] ) };
+            const result_t r = runner( *session ).run( rq, true, static_cast< int >( a[ 4 ] ), false );
+            return r.sel + " done=" + ( r.done ? "1" : "0" ) + " status=" + std::to_string( r.status )
+                + " early=" + ( r.early ? "1" : "0" ) + " asked=" + ( io.asked ? "1" : "0" ) + " shown=" + ( io.shown ? "1" : "0" )
+                + " kbd=" + ( io.kbd ? "1" : "0" ) + " oobq=" + std::to_string( oob.queries )
+                + " chk=" + ( r.chk ? "1" : "0" ) + " fail=" + r.fail;
+        }
+        if ( w[ 0 ] == "peerfail" && a.empty() )
+        {
+            if ( !session ) return "bad-op";
+            io.init( 0 );
+            runner rn( *session );
+            rn.input( std::vector< std::uint8_t >{ 0x05, 0x08 } );
+            return "rsp=" + verif::to_hex( rn.out, rn.out_size ) + " status=" + std::to_string( session->status() );
+        }
+        if ( w[ 0 ] == "reset" && a.empty() )
+        {
+            if ( !session ) return "bad-op";
+            io.init( 0 );
+            session->reset_connection();
+            return "status=" + std::to_string( session->status() );
+        }
         const bool is_req = w[ 0 ] == "req" && a.size() == 8;
         const bool is_pair = w[ 0 ] == "pair" && a.size() == 10;
         if ( is_req || is_pair )
